@@ -39,8 +39,8 @@ def setExpectLoop (h : Hist α) (cdf : α → α) : Nat → Int → Array α →
 
 /-- `esl_histogram_SetExpect()` (always eslOK; allocation not modelled) -/
 def Hist.setExpect (h : Hist α) (e : Expect α) (cdf : α → α) : Hist α × Expect α :=
-  let (ex, emin) := setExpectLoop h cdf h.nb.toNat 0 #[] e.emin
-  ({ h with isDone := true }, { e with expect := some ex, emin := emin })
+  let r := setExpectLoop h cdf h.nb.toNat 0 #[] e.emin
+  ({ h with isDone := true }, { e with expect := some r.1, emin := r.2 })
 
 /-- `esl_histogram_SetExpectedTail()`. On a `Score2Bin` failure the status is returned, `emin` is left as it was and a freshly allocated
     `expect[]` stays uninitialised: modelled as "no expected counts" (`none`) when it was NULL before. -/
@@ -127,6 +127,37 @@ structure Goodness (α : Type) where
 /-- the `ERROR:` exit -/
 def Goodness.fail (st : St) : Goodness α := { st := st, nbins := 0, g := zero, gp := one, x2 := zero, x2p := one }
 
+/-- `if (X == 0.) p = 1.0; else if (X != eslINFINITY) status = esl_stats_ChiSquaredTest(v, X, &p); else p = 0.;` -/
+def chiP (v : Int) (x : α) : St × α :=
+  if eqb x zero then (.ok, one)
+  else if !(eqb x (one / zero)) then chiSquaredTest v x
+  else (.ok, zero)
+
+/-- `X2 = Σ (obs_i - exp_i)² / exp_i` -/
+def x2Of (bins : List (Nat × α)) : α :=
+  bins.foldl (fun acc (ox : Nat × α) => let tmp := ofInt ox.1 - ox.2; acc + tmp * tmp / ox.2) zero
+
+/-- `G = 2 Σ obs_i log(obs_i / exp'_i)`, `exp'_i = exp_i * (double) nobs / nexp` -/
+def gOf (bins : List (Nat × α)) : α :=
+  let nobsT := bins.foldl (fun acc (ox : Nat × α) => acc + ox.1) 0
+  let nexpT := bins.foldl (fun acc (ox : Nat × α) => acc + ox.2) zero
+  let g := bins.foldl (fun acc (ox : Nat × α) =>
+    let ex := ox.2 * ofInt nobsT / nexpT
+    acc + ofInt ox.1 * log (ofInt ox.1 / ex)) zero
+  g * (2.0 : α)
+
+/-- the statistics part of `esl_histogram_Goodness`, from the re-bins on -/
+def goodnessStats (bins : List (Nat × α)) (nfitted : Int) : Goodness α :=
+  let nb : Int := bins.length
+  if nb - nfitted - 1 ≤ 0 then Goodness.fail .enoresult else
+  let x2 := x2Of bins
+  let r1 := chiP (nb - nfitted) x2
+  if r1.1 != .ok then Goodness.fail r1.1 else
+  let g := gOf bins
+  let r2 := chiP (nb - nfitted - 1) g
+  if r2.1 != .ok then Goodness.fail r2.1 else
+  { st := .ok, nbins := nb, g := g, gp := r2.2, x2 := x2, x2p := r1.2 }
+
 /-- `esl_histogram_Goodness(h, nfitted, &nbins, &G, &Gp, &X2, &X2p)`; also returns the re-bins (oldest first) for the accounting theorem -/
 def Hist.goodness (h : Hist α) (e : Expect α) (nfitted : Int) : Out (Goodness α × List (Nat × α)) :=
   match e.expect with
@@ -148,26 +179,7 @@ def Hist.goodness (h : Hist α) (e : Expect α) (nfitted : Int) : Out (Goodness 
         | [] => .val (Goodness.fail .enoresult, [])
         | (o, x) :: rest =>
           let bins := ((o + lobs, x + lexp) :: rest).reverse          -- `obs[i-1] += nobs; exp[i-1] += nexp;`
-          let nb : Int := bins.length
-          if nb - nfitted - 1 ≤ 0 then .val (Goodness.fail .enoresult, bins) else
-          let x2 := bins.foldl (fun acc (ox : Nat × α) => let tmp := ofInt ox.1 - ox.2; acc + tmp * tmp / ox.2) zero
-          let (s1, x2p) : St × α :=
-            if eqb x2 zero then (.ok, one)
-            else if !(eqb x2 (one / zero)) then chiSquaredTest (nb - nfitted) x2
-            else (.ok, zero)
-          if s1 != .ok then .val (Goodness.fail s1, bins) else
-          let nobsT := bins.foldl (fun acc (ox : Nat × α) => acc + ox.1) 0
-          let nexpT := bins.foldl (fun acc (ox : Nat × α) => acc + ox.2) zero
-          let g := bins.foldl (fun acc (ox : Nat × α) =>
-            let ex := ox.2 * ofInt nobsT / nexpT
-            acc + ofInt ox.1 * log (ofInt ox.1 / ex)) zero
-          let g := g * (2.0 : α)
-          let (s2, gp) : St × α :=
-            if eqb g zero then (.ok, one)
-            else if !(eqb g (one / zero)) then chiSquaredTest (nb - nfitted - 1) g
-            else (.ok, zero)
-          if s2 != .ok then .val (Goodness.fail s2, bins) else
-          .val ({ st := .ok, nbins := nb, g := g, gp := gp, x2 := x2, x2p := x2p }, bins)
+          .val (goodnessStats bins nfitted, bins)
 
 /-! ## the tables `esl_histogram_Plot` and `esl_histogram_PlotSurvival` print (bin accounting; the number formatting is not modelled) -/
 
